@@ -339,7 +339,7 @@ def spec(tier, seed):
     if tier == "quick":
         sh = {"H": shapes.shapes_H_upto(2, 2), "D": shapes.shapes_D_upto(2, 1), "S": shapes.shapes_S_upto(3, (0,))}
     else:
-        sh = {"H": shapes.shapes_H_upto(3, 2) + shapes.shapes_H(2, 3), "D": shapes.shapes_D_upto(2, 1) + shapes.shapes_D(1, 2) + shapes.shapes_D(2, 2)[::2], "S": shapes.shapes_S_upto(4, (0,))[:16]}
+        sh = {"H": shapes.shapes_H_upto(3, 2) + shapes.shapes_H(2, 3), "D": shapes.shapes_D_upto(2, 1) + shapes.shapes_D(1, 2) + shapes.shapes_D(2, 2)[::2], "S": [s for s in shapes.shapes_S_upto(4, (0,)) if s[1] <= 7][:16]}
     units = []
     not_covered = {}
     for cls in "HDS":
